@@ -34,16 +34,17 @@ def probe_source(name, kind):
     n = name
     if kind == "num":
         lines = ["10 DIM %s" % n, "20 %s=101" % n, "30 %s=%s+202" % (z, n), "40 FOR %s=303 TO 304:NEXT %s" % (n, n), "50 READ %s" % n, "60 INPUT %s" % n,
-                 "70 %s=VARPTR(%s)+606" % (z, n), "80 %s=%s(%s)+ABS(%s)" % (z, w, n, n), "90 DATA 505"]
+                 "70 %s=VARPTR(%s)+606" % (z, n), "80 %s=%s(%s)+ABS(%s)" % (z, w, n, n), "86 ON %s GOSUB 100" % n, "87 HGET(%s,0)-(1,1),1" % n, "90 DATA 505"]
     elif kind == "arr":
         lines = ["10 DIM %s(7)" % n, "20 %s(1)=101" % n, "30 %s=%s(2)+202" % (z, n), "50 READ %s(3)" % n, "60 INPUT %s(4)" % n,
-                 "70 %s=VARPTR(%s(5))+606" % (z, n), "80 %s=ABS(%s(6))+ABS(%s(0))" % (z, n, n), "90 DATA 505"]
+                 "70 %s=VARPTR(%s(5))+606" % (z, n), "80 %s=ABS(%s(6))+ABS(%s(0))" % (z, n, n), "86 ON %s(1) GOSUB 100" % n, "87 HPUT(0,0)-(%s(2),1),1,PSET" % n, "90 DATA 505"]
     elif kind == "str":
         lines = ["10 DIM %s$" % n, '20 %s$="P101"' % n, '30 %s$=%s$+"P202"' % (z, n), "50 READ %s$" % n, "60 INPUT %s$" % n,
-                 "70 %s=VARPTR(%s$)+606" % (z, n), "80 %s=LEN(%s$)+ASC(%s$)" % (z, n, n), "90 DATA HELLO"]
+                 "70 %s=VARPTR(%s$)+606" % (z, n), "80 %s=LEN(%s$)+ASC(%s$)" % (z, n, n), '85 %s$="Q505' % n, "86 ON LEN(%s$) GOSUB 100" % n, "90 DATA HELLO"]
     else:
         lines = ["10 DIM %s$(7)" % n, '20 %s$(1)="P101"' % n, '30 %s$=%s$(2)+"P202"' % (z, n), "50 READ %s$(3)" % n, "60 INPUT %s$(4)" % n,
-                 "70 %s=VARPTR(%s$(5))+606" % (z, n), "80 %s=LEN(%s$(6))+ASC(%s$(0))" % (z, n, n), "90 DATA HELLO"]
+                 "70 %s=VARPTR(%s$(5))+606" % (z, n), "80 %s=LEN(%s$(6))+ASC(%s$(0))" % (z, n, n), '85 LET %s$(1)="Q505' % n, "86 ON LEN(%s$(1)) GOSUB 100" % n,
+                 "90 DATA HELLO"]
     lines.append("100 PRINT INT(%s);STR$(%s):%s=JOYSTK(0)+ERNO:HBUFF 1,2:ON ERR GOTO 100" % (z, z, z))
     return "\n".join(lines), z, w
 
@@ -136,6 +137,23 @@ def extract(out, name, kind, z, w, case):
             idents_in(s.exp, acc)
             cands = [a for a in acc if a.upper() not in anchors]
             pos["argument"] = only(cands, "function argument / subscript")
+    for s in g.get(85, []):
+        if s.kind == "assign":
+            pos["open_literal_target"] = s.target[1]
+    # identifiers of line 100 (records, error number, joystick state ...) are the tool's own
+    own = []
+    for s in g.get(100, []):
+        for e in parse.stmt_exprs(s):
+            idents_in(e, own)
+    own = {a.upper() for a in own}
+    for lab, what in ((86, "on_selector"), (87, "hget_hput_corner")):
+        acc = []
+        for s in g.get(lab, []):
+            for e in parse.stmt_exprs(s):
+                idents_in(e, acc)
+        cands = [a for a in acc if a.upper() not in anchors and a.upper() not in own]
+        if cands:
+            pos[what] = only(cands, what)
     case["_anchors"] = anchors
     return pos, {a.upper() for a in all_ids}
 
